@@ -149,6 +149,19 @@ def stepV (v : Variant) (st : State) (args : List String) : State × String :=
         if resolutionsWf r.2 then s!"{toHex r.1} {dumpRefs r.2}" else s!"{toHex r.1} x"
       | none => "n/a"
     (st, s!"{model}\t{spec}")
+  | ["mtstr", c, _how, _hp, h] =>
+    -- a ManagedText re-initialised from the text `h`: `Str()` = the cached resolution, or the raw text when the
+    -- cache is empty; `Raw()` = the text. Nothing of the previous content `_hp` may show.
+    let b := parseHex h
+    let ctx := ctxFun (parseCtx c)
+    let strOf (resolved : List Nat) : List Nat := if resolved.isEmpty then b else resolved
+    let model := match resolve v ctx b with
+      | .ok (t, _) => s!"{toHex (strOf t)} {toHex b}"
+      | .stuck f => faultStr f
+    let spec := match wf b with
+      | some cps => s!"{toHex (strOf (Spec.resolveSpec ctx cps).1)} {toHex b}"
+      | none => "n/a"
+    (st, s!"{model}\t{spec}")
   | ["output", c, h] =>
     let b := parseHex h
     let ctx := ctxFun (parseCtx c)
